@@ -50,6 +50,13 @@ CHECKS = {
  "C01": ("other", "contract-based deductive verification: type-conformance postconditions on converters and structural postconditions on the container parsers",
          "Proved: to_null / to_bool / to_float / to_integer return an instance of the requested (sub)class on every exit; TypeTransformer.apply / __call__ return the leaf conversion; the container parsers return element-wise converted results "
          "(C11 contracts) and Rule.parse returns only after every validator and raise_error. The structural-induction lemma over all declared types and the remaining converters are not done - hence 'other'.", "DESIGN 3 C01"),
+ "C13": ("other", "lemmas over the proved validator contracts, one per (constraint -> keyword) pair read from constant.py on every run; contract of generate_for_dataclass (bounded: two fields); audits",
+         "Keyword tables: for every pair of TYPE_CONSTRAINTS_MAP with a standard keyword (maximum, exclusiveMaximum, minimum, exclusiveMinimum, multipleOf, max/minLength, max/minItems, uniqueItems, pattern) the utype validator's acceptance implies the "
+         "JSON Schema 2020-12 keyword predicate (15 lemmas, all inputs). Object structure (bounded, two fields): properties = fields usable in that direction, required = fields whose absence is an error (+ defaulted ones in the output view), "
+         "additionalProperties = the addition policy. Meta-schema validity, $defs, encoder output and nested generics are not decided - hence 'other'.", "DESIGN 3 C13"),
+ "C15": ("other", "lemmas over the proved validator contracts, one per (keyword -> constraint) pair of CONSTRAINTS_MAP read from constant.py on every run",
+         "For every standard keyword of the parser table the constraint it is mapped to accepts only values for which the keyword holds (the built type is at least as strict as the schema, 15 lemmas, all inputs). "
+         "`building a type succeeds` and validity of returned instances against the whole schema are not decided - hence 'other'.", "DESIGN 3 C15"),
  "C16": ("proof", "contract-based deductive verification: representation invariant of TypeRegistry preserved by every operation",
          "The registry's list/cache are related to an abstract view (entries with priority and ghost registration stamp); "
          "I1 priority order, I2 most-recent-first, I3 cache coherence, I4 stamps are established by __init__ and preserved by the register "
